@@ -736,59 +736,4 @@ theorem Inv.csFrame {s : St} (hi : Inv s) {l : List Nat} {sn : Nat → Nat} {d :
     Inv { s with inCs := l, seen := sn, data := d } :=
   { hi with cs_held := h1, cs_nodup := h2, cs_seen := h3 }
 
-/-- a step inside one pc class that may also touch `ndata` / `fnode` -/
-local macro "mx_frame" h:term : tactic =>
-  `(tactic| exact Inv.frame ‹Inv _› (k_upd_same (by rw [$h]; rfl)) rfl rfl rfl rfl rfl rfl rfl rfl rfl)
-
-theorem headNext_ne_zero {s : St} (h : headNext s ≠ 0) :
-    s.hd < s.order.length ∧ s.linked s.hd = true := by
-  unfold headNext at h
-  split at h
-  · next n g heq =>
-    have hlt : s.hd < s.order.length := by
-      apply Classical.byContradiction; intro hn
-      rw [List.getElem?_eq_none (by omega)] at heq; cases heq
-    refine ⟨hlt, ?_⟩
-    cases hl : s.linked s.hd with
-    | true => rfl
-    | false => simp [hl] at h
-  · simp at h
-
-theorem inv_step_lock {s s' : St} (hi : Inv s) :
-    ∀ e, (∃ f, e = Ev.callLock f) ∨ (∃ f o, e = Ev.fsub f o) ∨ (∃ f, e = Ev.retLock f) ∨
-      (∃ f a b, e = Ev.xchgTail f a b) ∨ (∃ f a b, e = Ev.wNext f a b) ∨ (∃ f a b, e = Ev.rNode f a b) →
-    step s e = some s' → Inv s' := by
-  intro e he hs
-  rcases he with ⟨f, rfl⟩ | ⟨f, old, rfl⟩ | ⟨f, rfl⟩ | ⟨f, a, b, rfl⟩ | ⟨f, a, b, rfl⟩ | ⟨f, a, b, rfl⟩
-  · simp only [step] at hs
-    split at hs <;> simp at hs
-    next h => subst hs; mx_frame h
-  · simp only [step] at hs
-    split at hs <;> simp at hs
-    next h =>
-    obtain ⟨rfl, hs⟩ := hs
-    split at hs <;> simp at hs <;> subst hs
-    · next h1 => exact hi.acquire (p := .acquired) rfl (by rw [h]; rfl) h1
-    · next h1 => exact hi.announce (p := .lockDec s.counter) rfl (by rw [h]; rfl) h1
-  · simp only [step] at hs
-    split at hs <;> simp at hs
-    · next h => subst hs; exact hi.holdMove (p := .held) (Or.inr rfl) (Or.inl (by rw [h]; rfl)) (fun _ => rfl)
-    · next h =>
-      obtain ⟨⟨ho, hw⟩, hs⟩ := hs
-      subst hs; exact hi.resume (p := .held) rfl (by rw [h]; rfl) ho hw
-  · simp only [step] at hs
-    split at hs <;> simp at hs
-    next m h =>
-    obtain ⟨⟨rfl, rfl⟩, hs⟩ := hs
-    subst hs; exact hi.enqueue (p := .pushXchgd b (tailNode s) s.order.length) rfl (by rw [h]; rfl)
-  · simp only [step] at hs
-    split at hs <;> simp at hs
-    · next m h => obtain ⟨_, hs⟩ := hs; subst hs; mx_frame h
-    · next m q i h =>
-      obtain ⟨_, hs⟩ := hs; subst hs
-      exact hi.link (p := .parked) (m := m) rfl (by rw [h]; rfl)
-  · simp only [step] at hs
-    split at hs <;> simp at hs
-    next h => obtain ⟨_, hs⟩ := hs; subst hs; mx_frame h
-
 end LibfiberVerif.Mutex
